@@ -225,6 +225,12 @@ add(property='C11', id='C11-pupil-mask-count', status='fixed', commit='13c730d',
                              fields=(0.0, 2.0)),
                 'N': 31, 'G': 64, 'fld': 0, 'defocus': 0.0, 'clip': False, 'ideal': False, 'mtf': False})
 
+add(property='C15', id='C15-reset-without-update', status='fixed', commit='8a61076', clause='lens_nominal_after_run',
+    what='fixed: property=C15 8a61076 Tolerancing.reset() restored perturbations and compensators but did not re-apply '
+         'pickups: with a radius compensator that is the source of a pickup the target surface stayed at the value of the '
+         'last trial after run() and after reset() (noted by a seeding agent, reproduced by adding such pickups)',
+    reproducer=json.load(open(os.path.join(HERE, 'known_cases', 'C15-pickup-reset.json'))))
+
 add(property='C01', id='C01-solve-slope', status='fixed', commit='08843a4', clause='solve_places_marginal_ray',
     what='fixed: property=C01 08843a4 marginal_ray_height solve (and image_solve) used the marginal slope behind the '
          'moved surface: on a powered surface the requested height was missed (two mirrors, R=5: 2.0 instead of 0.0)',
